@@ -78,3 +78,10 @@ def der_s(b):
 
 
 SIG = OBJ("ledger.signature:HSM2DongleSignature", _r=STR_, _s=STR_)
+
+
+def monotone(g, old):
+    """frame shared by every contract above exchange: the three logs only grow, in step"""
+    return (g.nx >= old.g.nx and g.conn >= old.g.conn and g.disc >= old.g.disc and prefix_of(old.g.log, g.log)
+            and prefix_of(old.g.resps, g.resps) and len(g.log) == len(old.g.log) + (g.nx - old.g.nx)
+            and len(g.resps) == len(old.g.resps) + (g.nx - old.g.nx))
